@@ -220,6 +220,8 @@ class OriginZero(E2Contract):
         for s in (["1q", "1qt"] + (["2q"] if tier == "thorough" else [])):
             out += [(s, "state", 0), (s, "povm", 2), (s, "povm", 3), (s, "gate", 0), (s, "mprocess", 2), (s, "mprocess", 3)]
         out += [("2q", "povm-tensor", 6)] + ([("qxqt", "povm-tensor", 6)] if tier == "thorough" else [])
+        # measurement processes whose outcomes carry a multi-index shape (as composition / tensor product produce them)
+        out += [("1q", "mprocess-shape", (2, 2)), ("1q", "mprocess-shape", (3, 2))]
         return out
 
     def inputs(self, W, cfg, mk):
@@ -233,6 +235,8 @@ class OriginZero(E2Contract):
             pa = obj_povm(W, mk, single(W, es[0]), 2, "pa")
             pb = obj_povm(W, mk, single(W, es[1]), 3, "pb")
             return dict(obj=W.mod("quara.objects.operators").tensor_product(pa, pb))
+        if kind == "mprocess-shape":
+            return dict(obj=obj_mprocess(W, mk, c_sys, m[0] * m[1], shape=m))
         if kind == "state":
             o = obj_state(W, mk, c_sys)
         elif kind == "povm":
@@ -255,6 +259,8 @@ class OriginZero(E2Contract):
         c_sys = o.composite_system
         d = c_sys.dim
         kind, m = cfg[1], cfg[2]
+        if kind == "mprocess-shape":
+            kind, m = "mprocess", m[0] * m[1]
         cl = []
         ident = np.eye(d, dtype=np.complex128)
         if kind == "state":
